@@ -96,8 +96,8 @@ CLAIMED = {
          'Lean 4 proofs of the algebraic clauses + differential correspondence + finite-difference falsifier on the real Arm',
          'DESIGN.md section 5 C06'),
  'C13': ('Machine-checked theorem (Lean 4, reals): for every chain of moving and fixed joints (any length, fixed joints before, between and after) with rigid origin transforms, the product-of-exponentials FK of the screws and home pose the loader builds '
-         '(axes rotated into space, screws (w, q x w), fixed joints folded in) equals the file's own semantics prod(origin_k * Rot(axis_k, theta_k)) - by induction over the chain using exp6([Ad_Q (w,0)] theta) = Q Rot(w,theta) inv(Q); '
-         'one screw per moving joint in file order; the origin is xyz translation with Rz*Ry*Rx. The model of the loader's second pass is tied by generating abstract documents, rendering them to XML for the real loadArmFromURDF and comparing screws/home; '
+         '(axes rotated into space, screws (w, q x w), fixed joints folded in) equals the file\'s own semantics prod(origin_k * Rot(axis_k, theta_k)) - by induction over the chain using exp6([Ad_Q (w,0)] theta) = Q Rot(w,theta) inv(Q); '
+         'one screw per moving joint in file order; the origin is xyz translation with Rz*Ry*Rx. The model of the loader\'s second pass is tied by generating abstract documents, rendering them to XML for the real loadArmFromURDF and comparing screws/home; '
          'FK of loaded arms (generated + the three bundled files) is compared with the NumPy product from the XML, with names, limits and dof.',
          'Trusted: Lean kernel, Mathlib, the generator / XML rendering / independent reader; XML parsing, parent-child wiring and longest-chain walk are glue covered on strictly serial trees by the correspondence run only.',
          'Lean 4 induction over the joint chain (exp6 conjugation) + generated-document correspondence + on-arm falsifier',
